@@ -136,6 +136,12 @@ def o_history(case):
 
     def callback(chain, ops):
         cb_log.append(list(ops))
+    # "listeners": other parties registered callbacks of their own before this one and went away later (the registry only
+    # keeps weak references); whoever is still listening keeps receiving every change
+    extra = []
+    for j in range(case.get("listeners", 0)):
+        extra.append(lambda chain, ops, _j=j: None)
+        bc.add_change_callback(extra[-1])
     bc.add_change_callback(callback)
 
     model = refchain.Model(anchor0)
@@ -265,6 +271,11 @@ def o_history(case):
                     same_batch_trigger = True
         if had_lock and new:
             labs.add("new-header-after-lock")
+        if extra and cb_log:
+            import gc
+            del extra[:]
+            gc.collect()
+            labs.add("earlier-listener-gone")
         # ---- the delivery
         ncb = len(cb_log)
         try:
@@ -463,6 +474,8 @@ def s_history(draw):
         case["lazy"] = True
     if draw(st.integers(0, 2)) == 0:
         case["fresh"] = True
+    if draw(st.integers(0, 3)) == 0:
+        case["listeners"] = draw(st.integers(1, 3))
     return case
 
 
